@@ -615,12 +615,12 @@ theorem cleanGet {g : Ent} {a tid : Nat} {w : World} {ts' : List Ent} (hB : Clea
         rcases hokt r hr with h1 | h1
         · exact Or.inl h1
         · exact Or.inr h1.1
+      have hndall : ((r0 :: rest).map (·.comp)).Nodup := by rw [← hall]; exact f1
       obtain ⟨nt, w1, hct, ct⟩ := hS.createTable_total hB.cacheRels halt
-        (fun hf => by rw [hrelA'] at hf; cases hf) hlenA hcols hvalid
+        (fun hf => by rw [hrelA'] at hf; cases hf) hlenA hcols hndall hvalid
       obtain ⟨hTt, hTna, hTr, hTnf, hTg, hTi⟩ := ct.tbl
       have hu := createTable_untouched hct
       obtain ⟨hra, hcr⟩ := createTable_frame hct
-      have hndall : ((r0 :: rest).map (·.comp)).Nodup := by rw [← hall]; exact f1
       have hrels1 : RelListsOK w1 := hB.rels.created halt ct hS hndall
       have hal : ∀ (e : Ent), w1.alive e = w.alive e := fun e => by simp only [World.alive, ct.pool]
       have hids1 : (w1.tbl nt).ids = (w.tbl tid).ids := by rw [hTi, hAe, i1]
